@@ -225,3 +225,21 @@ Theorem C04_seq_less_code_is_model : forall o st e i j ei ej, seqK o = g_seqK st
   fn_elemListSeq_Less st e i j = Ret (Z.leb (seq_num o (keyval_v ei)) (seq_num o (keyval_v ej))).
 Proof. exact less_code_is_model. Qed.
 Print Assumptions C04_seq_less_code_is_model.
+
+(* ---- the entry point MapSeq.Xml (xmlseq.go), translated from the current sources, with the translated sequence encoder: in
+   compact mode exactly the bytes of the model [seq_xml_items] (GenProofs/PureG25.v, PureG26.v) *)
+From Mxj Require Import Spec.JsonRT GenProofs.PureG17 GenProofs.PureG25 GenProofs.PureG26.
+
+Theorem C04_mapseq_xml_code_is_model : forall o st, senc_view st o ->
+  forall ind outd mar mari dec f m rt, vd (VMap m) < f -> text_ok o (VMap m) = true ->
+  forall its, seq_xml_items o m (rt_opt rt) = Ok its ->
+  fn_MapSeq_Xml (run_ms ind outd mar mari st f) dec st m rt =
+    if g_xmlCheckIsValid st && negb (acceptb dec (semit its)) then Ret ([], Some EOther) else Ret (semit its, None).
+Proof. exact mapseq_xml_code_is_model. Qed.
+Print Assumptions C04_mapseq_xml_code_is_model.
+
+Theorem C04_mapseq_xmlindent_is_root_sel : forall nmx (ext : enc_fn) dec st m prefix indent rt,
+  fn_MapSeq_XmlIndent nmx ext dec st m prefix indent rt =
+  finish_nmx nmx st dec (ext true [] (fst (root_sel_indent m rt)) (snd (root_sel_indent m rt)) indent 0%Z prefix 0%Z 0%Z).
+Proof. exact mapseq_xmlindent_is_root_sel. Qed.
+Print Assumptions C04_mapseq_xmlindent_is_root_sel.
